@@ -160,7 +160,7 @@ Proof.
   induction g as [|c g IH]; intros pos pw rest Hg; cbn [append String.length list_ascii_of_string map last_word].
   - rewrite Nat.add_0_r. reflexivity.
   - cbn [all_chars] in Hg. apply andb_true_iff in Hg as [Hc Hg].
-    rewrite scan_chr by (apply match_here_inert, Hc). rewrite (IH _ _ _ Hg). cbn [app]. do 2 f_equal. lia.
+    rewrite scan_chr by (apply match_here_inert, Hc). rewrite (IH _ _ _ Hg). cbn [app]. f_equal. f_equal. f_equal. lia.
 Qed.
 
 (* ---------- keyword alternatives fail on an identifier that is no keyword ---------- *)
